@@ -1,4 +1,81 @@
-(* placeholder *)
-From GR Require Import Base Resp.
-Theorem C03_placeholder : True. Proof. exact I. Qed.
-Print Assumptions C03_placeholder.
+(* C03 — every command gets exactly one reply, in order, without needing more input; QUIT; handler errors.
+   Property theorems only.  Everything is stated for an ARBITRARY application handler (`handle`), an arbitrary
+   text function for framework-generated errors and an arbitrary glob compiler. *)
+From Coq Require Import String.
+From GR Require Import Base Resp Handler Exec Conn ConnFacts LoopFacts.
+
+Section C03.
+  Variable hstate : Type.
+  Variable handle : hstate -> Z -> hcall -> hstate * hresult.
+  Variable regexp_src : bytes -> bytes.
+  Variable fw_text : bytes -> args -> bytes.
+  Notation serve := (serve hstate handle regexp_src fw_text).
+  Notation trace := (trace hstate).
+
+  (* (1) for every sequence of requests — ANY well-formed RESP values, so in particular every non-empty array of
+     bulk strings: any command name, any arguments, valid or not — followed by nothing or by bytes that do not
+     parse: the connection writes exactly one frame per request it processed, the i-th being the encoding of the
+     reply to the i-th request (in request order); every request is processed unless an earlier one was answered
+     with the QUIT sentinel. *)
+  Theorem C03_one_reply_per_request : forall ss hs reqs tail,
+    forallb wf reqs = true -> forallb size_ok reqs = true -> (tail = [] \/ fst (parse tail) = PErr) ->
+    let r := serve ss hs None (flat_map encode reqs ++ tail) in
+    exists replies,
+      ev_writes (trace r) = map encode replies /\
+      Forall2 (fun rep req => exists x, rep = reply_of fw_text req x) replies (firstn (length replies) reqs) /\
+      (length replies <= length reqs)%nat /\
+      (fst r <> EndQuit -> length replies = length reqs) /\
+      (fst r = EndQuit -> replies <> []).
+  Proof. exact (requests_one_reply_each hstate handle regexp_src fw_text). Qed.
+
+  (* (2) no request makes the connection spin or crash: for EVERY input byte string the loop terminates (fuel = input
+     length + 1 suffices) by end of stream, protocol error or QUIT *)
+  Theorem C03_no_spin : forall ss hs tls input,
+    fst (serve ss hs tls input) <> EndPanic /\ fst (serve ss hs tls input) <> EndFuel.
+  Proof. exact (serve_no_panic hstate handle regexp_src fw_text). Qed.
+
+  (* (3) replies do not wait for later input: the events of the connection after the first k bytes of a pipeline are
+     those of the stream that ends after the last request completely inside those k bytes — so the reply to every
+     complete request is written whatever follows (or does not follow) it. *)
+  Theorem C03_replies_need_no_more_input : forall ss hs reqs k,
+    forallb is_request reqs = true -> forallb size_ok reqs = true -> (k <= length (flat_map encode reqs))%nat ->
+    exists j, (j <= length reqs)%nat /\
+      (length (flat_map encode (firstn j reqs)) <= k)%nat /\
+      ((j < length reqs)%nat -> (k < length (flat_map encode (firstn (S j) reqs)))%nat) /\
+      trace (serve ss hs None (firstn k (flat_map encode reqs))) = trace (serve ss hs None (flat_map encode (firstn j reqs))).
+  Proof. exact (cut_trace hstate handle regexp_src fw_text). Qed.
+
+  (* (4) QUIT (any letter case) on an authorized connection: reply +OK, the loop ends, no handler call *)
+  Theorem C03_quit : forall w cmd a,
+    cs_auth (w_cs _ w) = true -> upper cmd = B"QUIT" ->
+    exists w', step hstate handle regexp_src fw_text w (RArr (RBulk (Some cmd) :: a)) = Ok (true, w') /\
+               exists inner, new_evs hstate w w' (inner ++ iter_tail (encode ok_msg)) /\ ev_calls inner = [].
+  Proof. exact (quit_command hstate handle regexp_src fw_text). Qed.
+
+  (* (5) what is pipelined behind the request that ended the loop is neither executed nor answered *)
+  Theorem C03_nothing_after_quit : forall w l1 q l2 w',
+    run_body hstate handle regexp_src fw_text w (l1 ++ [q]) = (Some EndQuit, w') ->
+    run_body hstate handle regexp_src fw_text w (l1 ++ q :: l2) = (Some EndQuit, w').
+  Proof. exact (nothing_after_quit hstate handle regexp_src fw_text). Qed.
+
+  (* (6) a handler error that is not the QUIT sentinel is an error reply with its text, and the loop continues *)
+  Theorem C03_handler_error : forall req t m,
+    reply_of fw_text req {| x_msg := m; x_err := Some (XHandler t) |} = RError t /\
+    is_quit {| x_msg := m; x_err := Some (XHandler t) |} = false.
+  Proof. exact (handler_error_reply fw_text). Qed.
+End C03.
+Print Assumptions C03_one_reply_per_request.
+Print Assumptions C03_no_spin.
+Print Assumptions C03_replies_need_no_more_input.
+Print Assumptions C03_quit.
+Print Assumptions C03_nothing_after_quit.
+Print Assumptions C03_handler_error.
+
+(* non-vacuity: a concrete pipeline [SET k v; QUIT; GET k] with a handler that answers OK: two replies, loop ended by QUIT *)
+Example C03_ex :
+  let h := fun (s : unit) (_ : Z) (_ : hcall) => (s, hr_ok ok_msg) in
+  let q n := RArr (map (fun s => RBulk (Some s)) n) in
+  let reqs := [q [B"SET"; B"k"; B"v"]; q [B"quit"]; q [B"GET"; B"k"]] in
+  let r := Conn.serve unit h (fun p => p) (fun _ _ => B"ERR") {| ss_config := []; ss_auths := []; ss_app := [] |} tt None (flat_map encode reqs) in
+  fst r = EndQuit /\ ev_writes (Conn.trace unit r) = [B"+OK" ++ CRLF; B"+OK" ++ CRLF] /\ forallb is_request reqs = true.
+Proof. vm_compute. auto. Qed.
